@@ -178,7 +178,8 @@ def setup(e, name, scalar_counts):
         for a in (nmating, nprogeny):
             e.assume(z3.ForAll([f], z3.Implies(z3.And(0 <= f, f < nfam.t), a._fn(f) >= 0), patterns=[a._fn(f)]))
     nself = fresh_int("nself", 0)
-    me = Me()
+    import importlib
+    me = loopcut.stub_of(getattr(importlib.import_module(rel[:-3].replace("/", ".")), cls))
     me.nparent = npar
     me.rng = loopcut.Token("self.rng")
     me.progeny_counter = fresh_int("progeny_counter", 0)
